@@ -224,7 +224,10 @@ fn gen_plan(p: &mut Prng, same_as: Option<&Plan>) -> Plan {
     let ops = gen_ops(p, ti, rounds.is_none());
     let with_tt = ops.iter().any(|o| matches!(o, Op::Aux(0)));
     // a test_timer-passing script: jittery, long enough for the 1601 probe readings
-    let script = gen_script(p, 0, if with_tt { 1700 } else { 64 });
+    // small, often coinciding deltas (tiny / coarse clocks) as well as jittery ones:
+    // stuck decisions are where stale shared state would show
+    let cls = if with_tt { 0 } else { *p.pick(&[0usize, 0, 8, 8, 11, 1]) };
+    let script = gen_script(p, cls, if with_tt { 1700 } else { 96 });
     let zeros = p.below(3) as usize * 16;
     let mut src = vec![0u8; zeros];
     src.extend(p.bytes(2100));
@@ -277,7 +280,7 @@ fn compare(plans: &[Plan], solo_logs: &[Vec<u64>], logs: &[Vec<u64>], mode: &str
     true
 }
 
-fn case(sub: &str, id: u64, threads: usize, r: &mut Report) {
+fn plans_for(id: u64) -> (Prng, Vec<Plan>) {
     let mut p = Prng::new(id);
     let g_count = p.range(3, 10) as usize;
     let mut plans: Vec<Plan> = Vec::new();
@@ -285,6 +288,26 @@ fn case(sub: &str, id: u64, threads: usize, r: &mut Report) {
         let prev = plans.last().cloned();
         plans.push(gen_plan(&mut p, prev.as_ref()));
     }
+    (p, plans)
+}
+
+/// child mode of the monitor binary: run the plans of case `id` in the given
+/// order in THIS (fresh) process and print `<plan index> <log digest>` lines
+pub fn child_main(id: u64, order: &[usize]) {
+    let (_, plans) = plans_for(id);
+    for &g in order {
+        let log = solo(&plans[g]);
+        let mut h = Fnv::new();
+        for v in log {
+            h.u64(v);
+        }
+        println!("{} {}", g, h.get());
+    }
+}
+
+fn case(sub: &str, id: u64, threads: usize, r: &mut Report) {
+    let (mut p, plans) = plans_for(id);
+    let g_count = plans.len();
     // phase 1: solo replay, one generator at a time
     let solo_logs: Vec<Vec<u64>> = plans.iter().map(solo).collect();
     // solo replay is itself reproducible
@@ -534,6 +557,48 @@ fn case(sub: &str, id: u64, threads: usize, r: &mut Report) {
             r.cov(&format!("construct_race:{}", type_name(ti)));
             r.distinct(hkey(&[&"construct_race", &id]));
         }
+        // process-level isolation: every plan run ALONE in a fresh process must give
+        // the same log as when it runs after the others, in any order, in one process
+        "process_order" => {
+            let exe = match std::env::current_exe() { Ok(e) => e, Err(_) => { r.inconclusive("current_exe unavailable".into()); return; } };
+            let run_child = |order: &[usize]| -> Option<Vec<(usize, u64)>> {
+                let arg = order.iter().map(|k| k.to_string()).collect::<Vec<_>>().join(",");
+                let out = std::process::Command::new(&exe).args(["--c19-child", &id.to_string(), &arg]).output().ok()?;
+                if !out.status.success() { return None; }
+                Some(String::from_utf8_lossy(&out.stdout).lines().filter_map(|l| {
+                    let mut it = l.split(' ');
+                    Some((it.next()?.parse().ok()?, it.next()?.parse().ok()?))
+                }).collect())
+            };
+            let mut alone: Vec<u64> = Vec::new();
+            for g in 0..g_count {
+                match run_child(&[g]) {
+                    Some(v) if v.len() == 1 => alone.push(v[0].1),
+                    _ => { r.inconclusive("process_order: child process failed".into()); return; }
+                }
+            }
+            for round in 0..3 {
+                let mut order: Vec<usize> = (0..g_count).collect();
+                match round {
+                    0 => {}
+                    1 => order.reverse(),
+                    _ => { for i in (1..g_count).rev() { order.swap(i, p.below(i as u64 + 1) as usize); } }
+                }
+                let got = match run_child(&order) { Some(v) => v, None => { r.inconclusive("process_order: child process failed".into()); return; } };
+                for (g, d) in got {
+                    r.eval();
+                    if alone[g] != d {
+                        r.violation(format!("{}:stream_depends_on_earlier_instances_in_the_process", type_name(plans[g].type_idx)), sub, id, json!({
+                            "generator": g, "type": type_name(plans[g].type_idx), "constructor": plans[g].ctor, "seed": hex(&plans[g].seed),
+                            "order_in_process": order, "types_in_order": order.iter().map(|&k| type_name(plans[k].type_idx)).collect::<Vec<_>>(),
+                            "note": "log digest of this generator differs between a fresh process and a process in which the listed instances ran first"}));
+                        return;
+                    }
+                }
+            }
+            r.cov("process_orders");
+            r.distinct(hkey(&[&"process_order", &id]));
+        }
         _ => r.inconclusive(format!("unknown sub-monitor {} for C19", sub)),
     }
     for pl in &plans {
@@ -570,12 +635,14 @@ pub fn run(ctx: &Ctx, only: Option<&Only>) -> Report {
     total.merge(super::drive(&one, "turns", 600, secs * 0.3, |id, r| case("turns", id, th, r)));
     total.merge(super::drive(&one, "stress", 300, secs * 0.3, |id, r| case("stress", id, th, r)));
     total.merge(super::drive(&one, "construct_race", 240, secs * 0.1, |id, r| case("construct_race", id, th, r)));
+    total.merge(super::drive(ctx, "process_order", 96, secs * 0.1, |id, r| case("process_order", id, 1, r)));
     if ctx.scale >= 1.0 {
         total.floor("interleavings_one_thread", 1000);
         total.floor("interleavings_scripted_threads", 100);
         total.floor("interleavings_free_running", 50);
         total.floor("migrations", 1000);
         total.floor("construction_races", 50);
+        total.floor("process_orders", 50);
         total.floor("construct_race:IsaacRng", 3);
         total.floor("construct_race:Isaac64Rng", 3);
         total.floor("jitter_solo_vs_model", 100);
